@@ -187,5 +187,56 @@ theorem feed_same_class (v : Info) (cls typ : Nat) (d : List Nat) (nx : Nat) (h1
         | (simp [audioStep]; done)
         | (simp [Info.pi, Info.setPi, audioStep]; (repeat' split) <;> first | (simp_all; done) | (intros; omega))
 
+/-! ## flush_prog_info and its ASPECT event -/
+
+/-- what `flush_prog_info` announces, for either source shape: an ASPECT event is sent iff the reset
+    erased a known aspect ratio and the programme is one the code announces (`flushAspectAnyClass`, or
+    the current programme); it carries the erased value (`flushSendsOldAspect`) or the stored, unknown
+    one; the stored aspect ratio is unknown afterwards in every case -/
+theorem flush_events (v : Info) (cls : Nat) :
+    (flush v cls).2 =
+      (if (v.pi cls).aspect ≠ {} ∧ (flushAspectAnyClass = true ∨ cls = 0) then
+        [Ev.aspect (if flushSendsOldAspect then (v.pi cls).aspect else {})] else []) ∧
+    ((flush v cls).1.pi cls).aspect = {} := by
+  refine ⟨?_, by simp [flush, PI.reset]⟩
+  simp only [flush, bne_iff_ne, ne_eq]
+
+/-- the only events a programme id (1) or programme name (3) packet can raise are the ASPECT event of
+    `flush_prog_info` - first, at most one - and the PROG_INFO of the epilogue -/
+theorem feed_flush_events (v : Info) (cls typ : Nat) (d : List Nat) (nx : Nat) (ht : typ = 1 ∨ typ = 3) :
+    ∀ a, Ev.aspect a ∈ (feed v cls typ d nx).2.evs →
+      (v.pi cls).aspect ≠ {} ∧ (flushAspectAnyClass = true ∨ cls = 0) ∧
+      a = (if flushSendsOldAspect then (v.pi cls).aspect else {}) := by
+  intro a ha
+  have key : ∀ (w : Info), (w.pi cls).aspect = (v.pi cls).aspect → Ev.aspect a ∈ (flush w cls).2 →
+      (v.pi cls).aspect ≠ {} ∧ (flushAspectAnyClass = true ∨ cls = 0) ∧
+      a = (if flushSendsOldAspect then (v.pi cls).aspect else {}) := by
+    intro w hw hm
+    rw [(flush_events w cls).1, hw] at hm
+    split at hm
+    · rename_i hc
+      simp only [List.mem_singleton, Ev.aspect.injEq] at hm
+      exact ⟨hc.1, hc.2, hm⟩
+    · cases hm
+  have hno : ∀ (c : Prop) [Decidable c] (p : PI), Ev.aspect a ∈ (if c then [Ev.progInfo cls p] else []) → False := by
+    intro c _ p h
+    split at h <;> simp at h
+  rcases ht with rfl | rfl
+  all_goals
+    unfold feed at ha
+    simp only [] at ha
+    repeat' split at ha
+    all_goals first
+      | (simp only [List.not_mem_nil] at ha; done)
+      | skip
+    all_goals
+      rw [fin_events] at ha
+      simp only [List.mem_append, List.nil_append] at ha
+    all_goals first
+      | exact absurd ha (hno _ _)
+      | (rcases ha with ha | ha
+         · exact key _ (by simp) ha
+         · exact absurd ha (hno _ _))
+
 end Dec
 end Zvbi.Xds
